@@ -31,8 +31,8 @@ Section SaveTwice.
   Qed.
 
   (* writing quiet, normalised sections changes neither them nor the input stream *)
-  Lemma section_plan_quiet enc st t s hpos st1 s1 w :
-    quiet s -> offset_norm s -> section_plan junk enc st t s hpos = Ok (st1, s1, w) -> st1 = st /\ s1 = s.
+  Lemma section_plan_quiet compr enc st t s hpos st1 s1 w :
+    quiet s -> offset_norm s -> section_plan junk compr enc st t s hpos = Ok (st1, s1, w) -> st1 = st /\ s1 = s.
   Proof.
     intros Q N H. unfold section_plan in H.
     assert (E : (if s_index s =? 0 then s else with_offset s (sh_offset s)) = s).
@@ -40,21 +40,23 @@ Section SaveTwice.
     rewrite E in H.
     destruct (negb (sh_type s =? SHT_NOBITS) && negb (sh_type s =? SHT_NULL) && negb (sh_size s =? 0) &&
               match s_data s with Some _ => true | None => false end).
-    - rewrite sec_get_data_quiet in H by assumption. cbn [bind] in H.
+    - destruct (is_compressed compr s).
+      { destruct (rd (s_data s) 0 (sh_size s)); cbn [bind] in H; [|discriminate]. now injection H as <- <- _. }
+      rewrite sec_get_data_quiet in H by assumption. cbn [bind] in H.
       destruct (rd (s_data s) 0 (sh_size s)); cbn [bind] in H; [|discriminate]. now injection H as <- <- _.
     - now injection H as <- <- _.
   Qed.
 
-  Lemma sections_plan_quiet enc h t st : forall todo done acc st1 secs1 plan,
+  Lemma sections_plan_quiet compr enc h t st : forall todo done acc st1 secs1 plan,
     Forall quiet todo -> Forall offset_norm todo ->
-    sections_plan junk enc h t st done todo acc = Ok (st1, secs1, plan) ->
+    sections_plan junk compr enc h t st done todo acc = Ok (st1, secs1, plan) ->
     st1 = st /\ secs1 = rev_append done todo.
   Proof.
     induction todo as [|s r IH]; intros done acc st1 secs1 plan Q N H; cbn [sections_plan] in H.
     - injection H as <- <- _. split; reflexivity.
     - inversion Q as [|? ? Qs Qr]; subst. inversion N as [|? ? Ns Nr]; subst.
-      destruct (section_plan junk enc st t s _) as [[[st2 s2] w]|] eqn:E; cbn [bind] in H; [|discriminate].
-      destruct (section_plan_quiet _ _ _ _ _ _ _ _ Qs Ns E) as [-> ->].
+      destruct (section_plan junk compr enc st t s _) as [[[st2 s2] w]|] eqn:E; cbn [bind] in H; [|discriminate].
+      destruct (section_plan_quiet _ _ _ _ _ _ _ _ _ Qs Ns E) as [-> ->].
       destruct (IH _ _ _ _ _ Qr Nr H) as [-> ->]. split; reflexivity.
   Qed.
 
@@ -76,9 +78,9 @@ Section SaveTwice.
     rewrite (force_segments_stable _ _ _ [] S) in H. cbn [bind rev_append] in H.
     rewrite with_parts_id, L in H. cbn [bind negb] in H. rewrite Hh in H.
     destruct (save_header h0 (el_xlat el1) os) as [os1 ok1]. destruct ok1; cbn [negb] in H; [|now injection H as <-].
-    destruct (sections_plan junk (e_enc h0) h0 (el_xlat el1) (el_stream el1) [] (el_secs el1) []) as [[[st1 secs1] plan]|] eqn:E;
+    destruct (sections_plan junk (el_compr el1) (e_enc h0) h0 (el_xlat el1) (el_stream el1) [] (el_secs el1) []) as [[[st1 secs1] plan]|] eqn:E;
       cbn [bind] in H; [|discriminate].
-    destruct (sections_plan_quiet _ _ _ _ _ _ _ _ _ _ Q N E) as [-> ->]. cbn [rev_append] in H.
+    destruct (sections_plan_quiet _ _ _ _ _ _ _ _ _ _ _ Q N E) as [-> ->]. cbn [rev_append] in H.
     assert (Eid : with_stream (with_secs el1 (el_secs el1)) (el_stream el1) = el1) by (destruct el1; reflexivity).
     rewrite Eid in H.
     destruct (os_abort (exec_plan os1 plan)); [discriminate|].
@@ -106,9 +108,9 @@ Section SaveTwice.
     rewrite (force_segments_stable _ _ _ [] S). cbn [bind rev_append].
     rewrite with_parts_id, L2. cbn [bind negb]. rewrite Hh1.
     destruct (save_header h1 (el_xlat el1) os) as [os1 ok1]. destruct ok1; cbn [negb] in *; [|now injection H as <-].
-    destruct (sections_plan junk (e_enc h1) h1 (el_xlat el1) (el_stream el1) [] (el_secs el1) []) as [[[st1 secs1] plan]|] eqn:E;
+    destruct (sections_plan junk (el_compr el1) (e_enc h1) h1 (el_xlat el1) (el_stream el1) [] (el_secs el1) []) as [[[st1 secs1] plan]|] eqn:E;
       cbn [bind] in *; [|discriminate].
-    destruct (sections_plan_quiet _ _ _ _ _ _ _ _ _ _ Q N E) as [-> ->]. cbn [rev_append] in *.
+    destruct (sections_plan_quiet _ _ _ _ _ _ _ _ _ _ _ Q N E) as [-> ->]. cbn [rev_append] in *.
     assert (Eid : with_stream (with_secs el1 (el_secs el1)) (el_stream el1) = el1) by (destruct el1; reflexivity).
     rewrite Eid in *.
     destruct (os_abort (exec_plan os1 plan)); [discriminate|].
@@ -159,9 +161,9 @@ Proof.
   { unfold save in H. rewrite Hos, Hh, F1 in H. cbn [bind] in H. rewrite F2 in H. cbn [bind] in H.
     rewrite with_parts_id, L1 in H. cbn [bind negb] in H. rewrite Eh in H.
     destruct (save_header h' (el_xlat el1) os) as [os1 ok1]. destruct ok1; cbn [negb] in H; [|now injection H as <-].
-    destruct (sections_plan junk (e_enc h') h' (el_xlat el1) (el_stream el1) [] (el_secs el1) []) as [[[st1 secs1] plan]|] eqn:E;
+    destruct (sections_plan junk (el_compr el1) (e_enc h') h' (el_xlat el1) (el_stream el1) [] (el_secs el1) []) as [[[st1 secs1] plan]|] eqn:E;
       cbn [bind] in H; [|discriminate].
-    destruct (sections_plan_quiet junk _ _ _ _ _ _ _ _ _ _ Q1 N1 E) as [-> ->]. cbn [rev_append] in H.
+    destruct (sections_plan_quiet junk _ _ _ _ _ _ _ _ _ _ _ Q1 N1 E) as [-> ->]. cbn [rev_append] in H.
     assert (Eid : with_stream (with_secs el1 (el_secs el1)) (el_stream el1) = el1) by (destruct el1; reflexivity).
     rewrite Eid in H.
     destruct (os_abort (exec_plan os1 plan)); [discriminate|].
